@@ -453,7 +453,8 @@ func FuzzyMatchV2(caseSensitive bool, normalize bool, forward bool, input *util.
 	// Since O(nm) algorithm can be prohibitively expensive for large input,
 	// we fall back to the greedy algorithm. We also do so when the pattern is
 	// so long that the scores, which are kept in int16, could overflow.
-	if slab != nil && N*M > cap(slab.I16) || M > maxPatternLengthV2 {
+	// (N*M can overflow on 32-bit platforms)
+	if slab != nil && N > cap(slab.I16)/M || M > maxPatternLengthV2 {
 		return FuzzyMatchV1(caseSensitive, normalize, forward, input, pattern, withPos, slab)
 	}
 
